@@ -19,7 +19,7 @@ from pycel.excelutil import (
     NA_ERROR,
     VALUE_ERROR,
 )
-from pycel.lib.function_helpers import excel_helper
+from pycel.lib.function_helpers import calling_name_space, excel_helper
 
 
 CELL_INFO_TYPE = ['contents']
@@ -40,7 +40,7 @@ def cell(info_type, ref):
         else:
             current_cell = ref
 
-        _C_ = cell.excel_func_meta['name_space']['_C_']
+        _C_ = calling_name_space(cell)['_C_']
         return _C_(current_cell.address)
 
 
